@@ -74,6 +74,22 @@ func evalExpr(pk *packages.Package, e ast.Expr) (*Lit, error) {
 		}
 		return l, nil
 	}
+	// a function value: a package-level function or a method expression (*T).m
+	switch x := e.(type) {
+	case *ast.Ident:
+		if f, ok := info.Uses[x].(*types.Func); ok {
+			return &Lit{Obj: f, Pos: e.Pos(), Type: tv.Type}, nil
+		}
+	case *ast.SelectorExpr:
+		if sel := info.Selections[x]; sel != nil && sel.Kind() == types.MethodExpr {
+			if f, ok := sel.Obj().(*types.Func); ok {
+				return &Lit{Obj: f, Pos: e.Pos(), Type: tv.Type}, nil
+			}
+		}
+		if f, ok := info.Uses[x.Sel].(*types.Func); ok {
+			return &Lit{Obj: f, Pos: e.Pos(), Type: tv.Type}, nil
+		}
+	}
 	switch x := e.(type) {
 	case *ast.CallExpr:
 		// conversion []byte("const")
